@@ -105,8 +105,8 @@ def parseDump (c : Case) : Option (Array EK × Option String) := do
       let ux := xs.getD u 0; let uy := ys.getD u 0; let wx := xs.getD w 0; let wy := ys.getD w 0
       let e := mkEK ux uy (cl.getD u "0" == "1") wx wy (cl.getD w "0" == "1")
       out := out.push e
-      if bad.isNone && (d != rabs (ux - wx) + rabs (uy - wy) || (ux != wx && uy != wy)) then
-        bad := some s!"edge {e.str} has getDist() {ratToString d}"
+      if bad.isNone && d != rabs (ux - wx) + rabs (uy - wy) then
+        bad := some s!"edge {e.str} has getDist() {ratToString d} ≠ its length {ratToString (rabs (ux - wx) + rabs (uy - wy))}"
     i := i + 1 + 3 * deg
     u := u + 1
   return (out, bad)
@@ -114,11 +114,13 @@ def parseDump (c : Case) : Option (Array EK × Option String) := do
 def modelKeys (s : Scene) : Array EK :=
   (s.graph.map fun (a, b) => mkEK a.x a.y a.k.isConn b.x b.y b.k.isConn).toArray
 
-/-- `none`: no dump in this case, or model graph = dumped graph; `some msg`: they differ -/
-def checkOrthVis (c : Case) : Option String × List (String × Nat) := Id.run do
+/-- `none`: no dump in this case, or model graph = dumped graph; `some (spec, msg)`: they differ
+    (`spec`: the dumped graph itself is wrong — an edge weight that is not the edge's length, an edge through
+    a routing box — a concrete failing input; otherwise only model ≠ implementation) -/
+def checkOrthVis (c : Case) : Option (Bool × String) × List (String × Nat) := Id.run do
   if (c.get1 "agx").isNone then return (none, [("orthvis.nodump", 1)])
-  let some s := parseScene c | return (some "orthvis: unparsable scene", [])
-  let some (dump, bad) := parseDump c | return (some "orthvis: unparsable graph dump", [])
+  let some s := parseScene c | return (some (false, "orthvis: unparsable scene"), [])
+  let some (dump, bad) := parseDump c | return (some (false, "orthvis: unparsable graph dump"), [])
   let impl := canon dump
   let model := canon (modelKeys s)
   let L := s.lines
@@ -130,28 +132,37 @@ def checkOrthVis (c : Case) : Option String × List (String × Nat) := Id.run do
      (if inShape then "orthvis.endpoint-in-shape" else "orthvis.endpoints-free", 1),
      (if s.fixDirs != s.conns then "orthvis.outside-rule-fired" else "orthvis.outside-rule-idle", 1)]
   match bad with
-  | some m => return (some s!"orthvis: {m} ≠ geometric length", stats)
+  | some m => return (some (true, s!"orthvis: {m}"), stats)
+  | none => pure ()
+  -- every dumped edge is axis-parallel and enters no rectangle that holds no end point (the property
+  -- `Props.C05OrthVis.graph_edge_sound` proves of the model graph; checker: `edgeAvoids`, `edgeAvoids_iff`)
+  let solid := s.rects.filter fun r => !hasConnIn s.conns r
+  match impl.find? (fun e => solid.any fun r => !edgeAvoids r e.x1 e.y1 e.x2 e.y2) with
+  | some e => return (some (true, s!"orthvis: libavoid's visibility edge {e.str} is not axis-parallel or passes through the interior of a routing box"), stats)
   | none => pure ()
   match firstMissing impl model, firstMissing model impl with
   | none, none => return (none, stats)
   | some e, _ =>
-    return (some s!"orthvis: libavoid's graph has edge {e.str}, the model's has not ({impl.size} vs {model.size} edges)", stats)
+    return (some (false, s!"orthvis: libavoid's graph has edge {e.str}, the model's has not ({impl.size} vs {model.size} edges)"), stats)
   | none, some e =>
-    return (some s!"orthvis: the model's graph has edge {e.str}, libavoid's has not ({impl.size} vs {model.size} edges)", stats)
+    return (some (false, s!"orthvis: the model's graph has edge {e.str}, libavoid's has not ({impl.size} vs {model.size} edges)"), stats)
 
-/-- adds the graph tie to a scene verdict (a difference is a DIVERGE unless the case already failed) -/
+/-- adds the graph tie to a scene verdict (reported unless the case already failed) -/
 def withOrthVis (c : Case) (r : CaseResult) : CaseResult :=
   let (d, st) := checkOrthVis c
   let r' := { r with stats := r.stats ++ st }
   match d, r.verdict with
-  | some msg, .ok => { r' with verdict := .diverge msg }
+  | some (true, msg), .ok => { r' with verdict := .specfail msg }
+  | some (true, msg), .diverge _ => { r' with verdict := .specfail msg }
+  | some (false, msg), .ok => { r' with verdict := .diverge msg }
   | _, _ => r'
 
 /-- classes `ovis-*` (c05_orthvis.h): scene + graph dump only -/
 def checkOvis (c : Case) : CaseResult :=
   let (d, st) := checkOrthVis c
   match d with
-  | some msg => { verdict := .diverge msg, stats := st }
+  | some (true, msg) => { verdict := .specfail msg, stats := st }
+  | some (false, msg) => { verdict := .diverge msg, stats := st }
   | none => { verdict := .ok, nontrivial := (c.get1 "agx").isSome, stats := st }
 
 end Driver.C05OrthVis
